@@ -94,6 +94,10 @@ mod entry;
 mod error;
 mod iter;
 mod mem_size;
+#[cfg(feature = "verif-hooks")]
+mod verif;
+#[cfg(feature = "verif-hooks")]
+pub use verif::{VerifGeometry, VerifNode};
 
 /// An LRU (least-recently-used) cache that stores values associated with keys.
 /// Insertion, retrieval, and removal all have average-case complexity in O(1).
